@@ -356,8 +356,13 @@ def gen_wrap(rng):
     W11 = [("W",)] * 11
     kind = rng.randrange(5)
     if kind == 4:      # the segment reads "being re-initialised" (generation 0) while clients hold a record
-        toks = W11 + [("N",)] + R13 + [("W",)] * rng.choice([0, 11]) + [("J", 0)] + [("R", 0, None)] * rng.choice([2, 13]) + [("N",)]
-        toks += [("W",)] * rng.choice([3, 11]) + R13 + W11 + R13
+        if rng.random() < 0.5:
+            toks = W11 + [("N",)] + R13 + [("W",)] * rng.choice([0, 11]) + [("J", 0)] + [("R", 0, None)] * rng.choice([2, 13]) + [("N",)]
+            toks += [("W",)] * rng.choice([3, 11]) + R13 + W11 + R13
+        else:
+            # ... or starts reading so while a call is copying the record of a new publication
+            toks = W11 + [("N",)] + R13 + W11 + [("R", 0, None)] * rng.choice([2, 3, 5, 9, 10]) + [("J", 0)] + [("R", 0, None)] * 40
+            toks += W11 + R13 + R13
     elif kind == 0:    # follow the counter through the wrap
         toks = W11 + [("J", rng.choice([65526, 65528, 65530, 65532]))] + [("N",)] + R13
         for _ in range(rng.randrange(3, 9)):
